@@ -411,6 +411,20 @@ func (ex *Exec) step(st *State, fr *Frame, in ssa.Instruction, work *[]*State) {
 		}
 		closureTable[c.ID] = c
 		fr.Regs[x] = c
+		// facts the closure's contract states about its captured variables must hold here
+		if csp := ex.Specs.Funcs[specName(c.Fn)]; csp != nil && len(csp.Captures) > 0 && ex.pure == nil {
+			env := &SpecEnv{ex: ex, st: st, vars: map[string]TV{}, fn: c.Fn, pkg: pkgOfFn(c.Fn)}
+			for i, fv := range c.Fn.FreeVars {
+				if i < len(c.Bind) {
+					if p, ok := c.Bind[i].(*PtrV); ok {
+						env.vars[fv.Name()] = TV{ex.load(st, p), p.Elem}
+					}
+				}
+			}
+			for i, cl := range csp.Captures {
+				ex.emit(st, "pre", fmt.Sprintf("captures:%s:%s@%s", csp.Name, clauseLabel(cl, i), specName(fr.Fn)), ex.evalBool(env, cl.Expr), x.Pos(), mergeProps(csp.Props, cl.Props))
+			}
+		}
 	case *ssa.Lookup:
 		ex.doLookup(st, fr, x)
 	case *ssa.MapUpdate:
@@ -755,6 +769,9 @@ func (ex *Exec) storeArrElem(st *State, class string, arrT types.Type, ref, idx 
 
 func (ex *Exec) assumeInv(st *State, t types.Type, v Value) {
 	for _, f := range typeInv(t, v, st.Frontier) {
+		if mentionsBound(f) {
+			continue // a value read under a specification quantifier: no fact about one instance of the bound variable
+		}
 		st.assume(f)
 	}
 }
